@@ -20,4 +20,13 @@ CHECKS = {
  'C38': dict(engine='PYSYM', technique='CrossHair symbolic execution (z3 Int) of Shadow.cdiv/cmod/cast vs C99 truncation reference; concrete replay',
              text='Bounded-unbounded model check: for ALL pairs of Python ints (b != 0) Shadow.cdiv/cmod equal C truncation semantics; cast/declare on the integer typedefs are identity. CrossHair reports "confirmed over all paths" (each path decided by z3 over mathematical integers).',
              note=_TB),
+ 'C44': dict(engine='PYAST+PYSYM', technique='symbolic interpretation of the real LineTable.py AST with z3 bit-vectors (all paths, inductive step for lists of any length) + CrossHair counterexample search; replay through CPython co_positions()',
+             text='Bounded model check of the position-table encoder: encode_varint is a self-delimiting code for every v < 2^32; one step of encode_single_position from ANY running line emits one entry the reference decoder maps back to the input position and leaves encoder and decoder in the same state (covers start-sorted lists of any length, values < 2^30); build_line_table glue for lists of 1-2 positions.',
+             note=_TB + ' The reference decoder is transcribed from CPython InternalDocs/locations.md and validated every run against code.co_positions().'),
+ 'C49': dict(engine='PYSYM', technique='CrossHair symbolic execution of StringIOTree / CCodeWriter operation histories, prefix-split into one condition per 2-operation prefix, vs a list-of-holes reference',
+             text='Bounded model check over histories: every history of <= 4 (quick) / <= 6 (thorough) write / insertion_point / insert / commit operations on any live buffer gives getvalue(), copyto(), empty() and allmarkers() equal to the in-order reference on every live buffer; same for CCodeWriter write/putln/mark_pos/insertion_point/new_writer+insert histories.',
+             note=_TB),
+ 'C50': dict(engine='PYSYM', technique='CrossHair symbolic execution of the real Plex pipeline (Lexicon->NFA->DFA->Scanner.run_machine_inlined) on a symbolic input string per enumerated lexicon, vs a set-of-end-positions reference matcher',
+             text='For each of the listed lexicons (fixed regression set + VERIF_SEED-drawn), for EVERY input text up to the stated length over {a,b,c,newline}, the token sequence (rule index and text, longest match, earliest rule on ties, error iff nothing matches) equals the reference matcher.',
+             note=_TB + ' Lexicons are enumerated, not symbolic.'),
 }
